@@ -366,6 +366,95 @@ class Summaries:
             # any other IntoIterator (generic `impl IntoIterator` parameters, adaptors ...): the value itself decides
             return to_iter(ctx, ctx.args[0])
 
+        def range_like(ty):
+            """(lo field, hi field, has a matching next_back) when ty is a crate-local struct with
+            `impl Iterator` whose `next`, run on arbitrary field values, has exactly the outcomes of
+            `Range::next`: `Some(lo)` with lo := lo + 1 when lo < hi, `None` with nothing changed when
+            hi <= lo.  Decided once per type on the abstract outcomes of the function, not on its text."""
+            cache = eng.__dict__.setdefault('rangelike', {})
+            if ty in cache:
+                return cache[ty]
+            cache[ty] = False
+            nxt = '<%s as std::iter::Iterator>::next' % ty
+            adt = eng.prog.adts.get(ty)
+            if nxt not in eng.prog.bodies or not adt or len(adt.get('variants', [])) != 1:
+                return False
+            flds = [(f['name'], f.get('ty')) for f in adt['variants'][0]['fields']]
+            if not flds or any(t not in INT_RANGES for _n, t in flds):
+                return False
+            from .engine import State as _State
+
+            def run(fn):
+                st = _State()
+                vals = {n: eng.fresh_num(st, t, name='%s.%s' % (ty.split('::')[-1], n)) for n, t in flds}
+                root = ('H', 'rl%d' % next(_c))
+                st.store[root] = StructV(ty, dict(vals))
+                saved = (eng.hooks, eng.event_hook, eng.call_trace_hook)
+                eng.hooks, eng.event_hook, eng.call_trace_hook = [], None, None
+                eng.probing += 1
+                try:
+                    res = eng.exec_body(st, fn, [RefV((root, ()), True)])
+                except Exception:
+                    res = None
+                finally:
+                    eng.probing -= 1
+                    eng.hooks, eng.event_hook, eng.call_trace_hook = saved
+                return vals, root, res
+
+            def matches(fn, back):
+                vals, root, res = run(fn)
+                if not res:
+                    return None
+                found = None
+                n_some = n_none = 0
+                for (s2, ret) in res:
+                    after = s2.store.get(root)
+                    if not (isinstance(ret, EnumV) and len(ret.tags) == 1 and isinstance(after, StructV)):
+                        return None
+                    changed = [n for n, _t in flds if not (isinstance(after.fields.get(n), NumV) and after.fields[n].key() == vals[n].key())]
+                    if set(ret.tags) == {0}:
+                        n_none += 1
+                        if changed:
+                            return None
+                        continue
+                    n_some += 1
+                    pay = ret.payload.get(1).fields.get('0') if ret.payload.get(1) is not None else None
+                    if len(changed) != 1 or not isinstance(pay, NumV):
+                        return None
+                    c = changed[0]
+                    nv = after.fields[c]
+                    if not back:
+                        if not (nv.sym == vals[c].sym and nv.k == 1 and pay.key() == vals[c].key()):
+                            return None
+                        others = [n for n, _t in flds if n != c and eng.prove_cmp(s2, 'lt', vals[c], vals[n]) is True]
+                    else:
+                        if not (nv.sym == vals[c].sym and nv.k == -1 and pay.key() == nv.key()):
+                            return None
+                        others = [n for n, _t in flds if n != c and eng.prove_cmp(s2, 'lt', vals[n], vals[c]) is True]
+                    if len(others) != 1:
+                        return None
+                    pair = (c, others[0]) if not back else (others[0], c)
+                    if found is not None and found != pair:
+                        return None
+                    found = pair
+                if not (n_some and n_none) or found is None:
+                    return None
+                # the None outcomes: hi <= lo
+                for (s2, ret) in res:
+                    if set(ret.tags) == {0} and eng.prove_le(s2, vals[found[1]], vals[found[0]]) is not True:
+                        return None
+                return found
+            fwd = matches(nxt, False)
+            if not fwd:
+                return False
+            nb = '<%s as std::iter::DoubleEndedIterator>::next_back' % ty
+            bwd = matches(nb, True) if nb in eng.prog.bodies else None
+            if nb in eng.prog.bodies and bwd != fwd:
+                return False          # a next_back that is not the range's: `.rev()` would mean something else
+            cache[ty] = (fwd[0], fwd[1], bwd == fwd)
+            return cache[ty]
+        self.range_like = range_like
+
         def to_iter(ctx, a, mode='val'):
             if isinstance(a, IterV):
                 return a
@@ -377,6 +466,14 @@ class Summaries:
                     return IterV('known', ctx.ret_ty, (items, 0), iid=next(_c))
             if isinstance(a, StructV) and a.ty.startswith('std::ops::Range'):
                 return range_iter(ctx, a)
+            if isinstance(a, StructV):
+                rl = range_like(a.ty)
+                if rl:
+                    # a crate-local iterator type whose `next` was shown to behave exactly like
+                    # `Range::next` on two of its fields: it is that range
+                    lo, hi = a.fields.get(rl[0]), a.fields.get(rl[1])
+                    if isinstance(lo, NumV) and isinstance(hi, NumV):
+                        return IterV('range', 'std::ops::Range<%s>' % lo.ty, (lo, hi, False), iid=next(_c))
             if isinstance(a, RefV):
                 v = eng.read(ctx.st, a.path)
                 if isinstance(v, CollV):
@@ -400,6 +497,10 @@ class Summaries:
         @reg('std::ops::RangeInclusive::<Idx>::new')
         def _(ctx):
             return StructV('std::ops::RangeInclusive', {'start': ctx.args[0], 'end': ctx.args[1]})
+
+        @reg('std::iter::Iterator::flatten')
+        def _(ctx):
+            return to_iter(ctx, ctx.args[0]).with_op(('flatten',), ctx.ret_ty)
 
         @reg('std::iter::Iterator::enumerate')
         def _(ctx):
@@ -685,7 +786,7 @@ class Summaries:
 
         def apply_ops(ctx, it, results, keep_skips=False):
             """apply adaptor chain to produced elements"""
-            ops = [o for o in it.ops if o[0] in ('cloned', 'map', 'filter', 'flat_map', 'enumerate')]
+            ops = [o for o in it.ops if o[0] in ('cloned', 'map', 'filter', 'flat_map', 'enumerate', 'char_indices')]
             if not ops:
                 return results
             out = []
@@ -699,6 +800,16 @@ class Summaries:
                     for (s, x) in cur:
                         if op[0] == 'cloned':
                             nxt.append((s, eng.read(s, x.path) if isinstance(x, RefV) else x))
+                        elif op[0] == 'char_indices':
+                            # (byte offset of the character in the string, character): the offset is remembered
+                            # as "where this character sits", for `&s[i..i + c.len_utf8()]`
+                            if x == ('skip',):
+                                nxt.append((s, x))
+                            else:
+                                idx = eng.fresh_num(s, 'usize', 0, 2**40, name='chidx')
+                                sk = op[1].key() if isinstance(op[1], V) else None
+                                s.vn[('char-at', sk, idx.sym)] = x
+                                nxt.append((s, StructV('(usize, char)', {'0': idx, '1': x})))
                         elif op[0] == 'enumerate':
                             # position unknown here: (some index, element)
                             nxt.append((s, x if x == ('skip',) else StructV('(usize, T)', {'0': eng.fresh_num(s, 'usize', 0, 2**40, name='idx'), '1': x})))
@@ -812,7 +923,7 @@ class Summaries:
                 src.reverse()
             ops = [o for o in ops if o[0] != 'rev']
             for op in ops:
-                if op[0] not in ('cloned', 'map', 'filter', 'skip', 'take', 'step_by', 'enumerate'):
+                if op[0] not in ('cloned', 'map', 'filter', 'skip', 'take', 'step_by', 'enumerate', 'flatten', 'char_indices'):
                     return None
                 if op[0] in ('skip', 'take', 'step_by') and not (isinstance(op[1], NumV) and op[1].sym is None):
                     return None
@@ -846,6 +957,24 @@ class Summaries:
                                             nn.append((s3, SKIP, c1))
                                     else:
                                         return None
+                            elif op[0] == 'char_indices':
+                                # byte offset of each character of the known string
+                                off = c1.get(oi, 0)
+                                c2 = dict(c1)
+                                c2[oi] = off + (len(x1.known.encode('utf-8')) if isinstance(x1, CharV) and x1.known is not None else 1)
+                                idx = NumV(None, off, 'usize')
+                                nn.append((s1, StructV('(usize, char)', {'0': idx, '1': x1}), c2))
+                            elif op[0] == 'flatten':
+                                # elements that are Options: Some(v) yields v, None yields nothing
+                                xv = eng.read(s1, x1.path) if isinstance(x1, RefV) else x1
+                                if isinstance(xv, EnumV) and xv.ty.startswith('std::option::Option') and len(xv.tags) == 1:
+                                    if set(xv.tags) == {0}:
+                                        nn.append((s1, SKIP, c1))
+                                    else:
+                                        pl = xv.payload.get(1)
+                                        nn.append((s1, pl.fields['0'] if pl is not None and pl.fields.get('0') is not None else eng.mk_default(s1, '?'), c1))
+                                else:
+                                    return None
                             elif op[0] == 'enumerate':
                                 k = c1.get(oi, 0)
                                 c2 = dict(c1)
@@ -1235,7 +1364,7 @@ class Summaries:
             """exact positional iteration for constant sources (static initialisers only)"""
             st = ctx.st
             p = pos if isinstance(pos, int) else 0
-            if any(o[0] in ('enumerate', 'step_by', 'skip', 'take', 'rev') for o in it.ops):
+            if any(o[0] in ('enumerate', 'step_by', 'skip', 'take', 'rev', 'flatten', 'char_indices') for o in it.ops):
                 # adaptors that depend on the position: the whole sequence is computed, then indexed
                 ex = exact_items(ctx, st, IterV(it.kind, it.ty, it.args, it.ops, None))
                 if ex is not None and len(ex) == 1 and ex[0][0] is st:
@@ -1861,6 +1990,61 @@ class Summaries:
             rty = ctx.ret_ty
             return fork_opt(ctx, ctx.args[0], lambda s, p: none(rty), lambda s, p: call_closure(ctx, s, f, [p]))
 
+        @regx(r'^core::bool::<impl bool>::then_some$')
+        def _(ctx):
+            b, v = ctx.args
+            rty = ctx.ret_ty
+            if isinstance(b, BoolV):
+                t = eng.eval_bool(ctx.st, b)
+                if t is True:
+                    return some(rty, v)
+                if t is False:
+                    return none(rty)
+                s2 = ctx.st.fork()
+                out = []
+                if eng.assume_bool(ctx.st, b, True):
+                    out.append((ctx.st, some(rty, v)))
+                if eng.assume_bool(s2, b, False):
+                    out.append((s2, none(rty)))
+                return out
+            return opt_either(rty, v)
+
+        @regx(r'^core::bool::<impl bool>::then$')
+        def _(ctx):
+            b, f = ctx.args
+            rty = ctx.ret_ty
+            out = []
+
+            def yes(s):
+                return [(s2, some(rty, r)) for (s2, r) in call_closure(ctx, s, f, [])]
+            if isinstance(b, BoolV):
+                t = eng.eval_bool(ctx.st, b)
+                if t is True:
+                    return yes(ctx.st)
+                if t is False:
+                    return none(rty)
+                s2 = ctx.st.fork()
+                if eng.assume_bool(s2, b, False):
+                    out.append((s2, none(rty)))
+                if eng.assume_bool(ctx.st, b, True):
+                    out = yes(ctx.st) + out
+                return out
+            s2 = ctx.st.fork()
+            return yes(ctx.st) + [(s2, none(rty))]
+
+        @reg('std::option::Option::<std::option::Option<T>>::flatten')
+        def _(ctx):
+            rty = ctx.ret_ty
+            return fork_opt(ctx, ctx.args[0], lambda s, p: none(rty),
+                            lambda s, p: fork_opt(with_state(ctx, s), p, lambda s2, q: none(rty), lambda s2, q: some(rty, q)))
+
+        @reg('std::option::Option::<T>::ok_or')
+        def _(ctx):
+            rty = ctx.ret_ty
+            e = ctx.args[1]
+            return fork_opt(ctx, ctx.args[0], lambda s, p: EnumV(rty, {1}, {1: StructV('Err', {'0': e})}),
+                            lambda s, p: EnumV(rty, {0}, {0: StructV('Ok', {'0': p})}))
+
         @reg('std::option::Option::<T>::zip')
         def _(ctx):
             rty = ctx.ret_ty
@@ -2056,6 +2240,24 @@ class Summaries:
                     out.append((s2, none(rty)))
                 return out
             return eng.mk_default(st, rty)
+
+        @regx(r'^core::num::<impl u(8|16|32|64|size)>::wrapping_(add|sub)$')
+        def _(ctx):
+            # exact when no wrap can occur in this state, otherwise any value of the type
+            a, b = ctx.args
+            st = ctx.st
+            if isinstance(a, NumV) and isinstance(b, NumV):
+                rlo, rhi = INT_RANGES.get(a.ty, (None, None))
+                if ctx.callee.endswith('wrapping_sub'):
+                    if eng.prove_le(st, b, a) is True:
+                        return eng.num_sub(st, a, b, a.ty)
+                elif rhi is not None:
+                    alo, ahi = eng.bounds(st, a)
+                    blo, bhi = eng.bounds(st, b)
+                    if ahi != INF and bhi != INF and ahi + bhi <= rhi:
+                        return eng.num_add(st, a, b, a.ty)
+                return eng.fresh_num(st, a.ty)
+            return eng.mk_default(st, ctx.ret_ty)
 
         @regx(r'^core::num::<impl u(8|16|32|64|size)>::checked_add$')
         def _(ctx):
@@ -2255,6 +2457,18 @@ class Summaries:
             s = sval(ctx, ctx.args[0])
             return IterV('chars', ctx.ret_ty, (s,), iid=next(_c))
 
+        @reg('core::str::<impl str>::char_indices')
+        def _(ctx):
+            s = sval(ctx, ctx.args[0])
+            return IterV('chars', ctx.ret_ty, (s,), ops=(('char_indices', s),), iid=next(_c))
+
+        @regx(r'^(std|core)::char::methods::<impl char>::len_utf8$')
+        def _(ctx):
+            ch = deref(ctx, ctx.args[0])
+            if isinstance(ch, CharV) and ch.known is not None:
+                return NumV(None, len(ch.known.encode('utf-8')), 'usize')
+            return eng.num_opaque(ctx.st, 'usize', 1, 4, ('len_utf8', ch.key() if isinstance(ch, V) else None), 'len_utf8(%r)' % (ch,))
+
         @reg('core::str::<impl str>::contains')
         def _(ctx):
             h = sval(ctx, ctx.args[0])
@@ -2382,6 +2596,24 @@ class Summaries:
             res = StrV(None, oid=next(_c), prov=('slice', s.key() if isinstance(s, V) else None))
             lo = r.fields.get('start') if isinstance(r, StructV) else None
             hi = r.fields.get('end') if isinstance(r, StructV) else None
+            chat = st.vn.get(('char-at', s.key() if isinstance(s, V) else None, lo.sym)) if isinstance(lo, NumV) and lo.sym is not None and lo.k == 0 else None
+            if isinstance(chat, CharV) and isinstance(hi, NumV) and 'Inclusive' not in getattr(r, 'ty', ''):
+                # `&s[i..i + c.len_utf8()]` with (i, c) from s.char_indices(): exactly the character c
+                if chat.known is not None:
+                    ln = NumV(None, len(chat.known.encode('utf-8')), 'usize')
+                else:
+                    ln = eng.num_opaque(st, 'usize', 1, 4, ('len_utf8', chat.key()), 'len_utf8(%r)' % (chat,))
+                want = eng.num_add(st, lo, ln, 'usize')
+                if eng.prove_cmp(st, 'eq', hi, want) is True:
+                    ctx.oblige('precondition', 'str range index in bounds and on a char boundary', True, 'the slice of one character at its own offset')
+                    st.log(('char-slice', ctx.fr.func if ctx.fr else None, ctx.t['span'].get('line')))
+                    if chat.known is not None:
+                        return StrV(chat.known, prov=('char',))
+                    one = StrV(None, oid=next(_c), prov=('char', chat.key()))
+                    st.vn[('nonempty', one.oid)] = True
+                    st.vn[('firstchar', one.oid)] = chat
+                    return one
+            st.log(('str.index', ctx.fr.func if ctx.fr else None, ctx.t['span'].get('line')))
             if isinstance(s, StrV) and s.known is not None:
                 b = s.known.encode('utf-8')
                 l = lo.k if isinstance(lo, NumV) and lo.sym is None else (0 if lo is None else None)
@@ -3098,6 +3330,8 @@ class Summaries:
         def _(ctx):
             path, c = coll_at(ctx, ctx.args[0], 'set')
             src = ctx.args[1]
+            if isinstance(src, StructV) and not src.ty.startswith('std::ops::Range') and range_like(src.ty):
+                src = to_iter(ctx, src)        # a crate-local range-like iterator: the range it stands for
             desc = src
             if isinstance(src, StructV) and src.ty.startswith('std::ops::Range'):
                 desc = ('range', src.fields.get('start'), src.fields.get('end'), 'Inclusive' in src.ty)
@@ -3426,8 +3660,12 @@ class Summaries:
             for h in eng.hooks:
                 h('width', st, ctx.fr, ctx.bi, ch)
             w = eng.num_opaque(st, 'usize', 0, 2, key, 'width(%r)' % (ch,))
+            prev = st.vn.get(('widthenum',) + key[1:])
+            if isinstance(prev, EnumV) and key[1] is not None:
+                return prev          # the same character has the same width (Some / None and the number) every time it is asked
             r = EnumV(ctx.ret_ty, {0, 1}, {1: StructV('Some', {'0': w})})
             st.vn[('widthopt',) + key[1:]] = r.eid
+            st.vn[('widthenum',) + key[1:]] = r
             return r
 
         @regx(r'^<str as unicode_width::UnicodeWidthStr>::width(_cjk)?$')
